@@ -14,7 +14,7 @@ Print Assumptions C05_graceful_never_drops.
 (* ... and when the manager has ended on a pool that never broke, every accepted task was delivered, no worker is registered and
    nothing more can be accepted *)
 Theorem C05_graceful_delivers_everything :
-  forall es n, never_kill es = true -> no_resize es = true -> let p := run es (pool0 n) in
+  forall es n, never_kill es = true -> let p := run es (pool0 n) in
     mgr p = MDone -> broken p = false -> ok p = submitted p /\ procs p = [] /\ closed p = true.
 Proof. exact graceful_delivers_everything. Qed.
 Print Assumptions C05_graceful_delivers_everything.
